@@ -180,7 +180,9 @@ def h_put(X, menu, K, flows):
         # a JSON object has unique keys and a section is one nested object (its keys are contiguous):
         # the menu offered to the solver is narrowed accordingly, the order of everything else is free
         closed = {q[0] for q in picks if q[0]} - ({picks[-1][0]} if picks else set())
-        allowed = [p for p in menu if p[0] not in closed and all((q[0], q[1]) != (p[0], p[1]) for q in picks)]
+        top_used = {q[0] or q[1] for q in picks}  # top-level JSON keys already present ("request": 5 and "request": {...} exclude each other)
+        allowed = [p for p in menu if p[0] not in closed and all((q[0], q[1]) != (p[0], p[1]) for q in picks)
+                   and not (p[0] == "" and p[1] in top_used) and not (p[0] and any(q[0] == "" and q[1] == p[0] for q in picks))]
         picks.append(X.choose("pick", allowed))
     doc = {}
     for sec, k, _, v in picks:
